@@ -14,7 +14,9 @@ RULE = (
     "of the matching volume region, per-cell closure and flux with only_surface=False, outwardness against the owning "
     "cell's centroid, face selection against an independent face table derived from the element's reference "
     "coordinates. Non-trivial: >= 2 cells along some axis (interior faces exist) and a perturbed/curved surface."
-    ' Masks are handed over as boolean arrays or as point indices.'
+    ' Masks are handed over as boolean arrays or as point indices. Every third case also compares copy(), astype() and an '
+    'in-place reload() of the surface region with the original (same dA, dV, normals, tangents) and a copy on points scaled '
+    'by s (area vectors scale with s^(dim-1)).'
 )
 ASSUMPTIONS = [
     "volume regions (C06) and element reference coordinates (C04) are used to build the oracle",
@@ -126,6 +128,25 @@ def check(kind, case, rec):
         rec.close("tangents-unit", float(np.abs(np.linalg.norm(t, axis=0) - 1).max()), 1e-12)
         rec.close("tangents-orthogonal-to-normal", float(np.abs((t * nrm).sum(0)).max()), 1e-12)
     rec.close("dV=|dA|", float(np.abs(np.linalg.norm(dA, axis=0) - rb.dV).max() / np.abs(rb.dV).max()), 1e-13)
+    if case["sseed"] % 3 == 0:
+        # copies of the surface region (copy(), astype(float64), an in-place reload()) describe the same surface
+        for how in ("copy", "astype", "reload"):
+            rc = rb.copy() if how == "copy" else rb.astype(np.float64) if how == "astype" else rb.copy()
+            if how == "reload":
+                rc.reload()
+            same = (np.asarray(rc.dA).shape == dA.shape and np.allclose(rc.dA, dA, rtol=0, atol=1e-14 * float(np.abs(dA).max()))
+                    and np.allclose(rc.dV, rb.dV, rtol=0, atol=1e-14 * float(np.abs(rb.dV).max())) and np.allclose(rc.normals, nrm, rtol=0, atol=1e-13)
+                    and len(rc.tangents) == len(rb.tangents) and all(np.allclose(a_, b_, rtol=0, atol=1e-13) for a_, b_ in zip(rc.tangents, rb.tangents)))
+            rec.require(f"{how}-describes-the-same-surface", same, {"dV-sum": [float(np.sum(rc.dV)), float(np.sum(rb.dV))]})
+        # a copy on the same boundary cells with points scaled by s: area vectors scale with s^(dim-1), normals stay
+        s_ = 1.5 + (case["sseed"] % 5) / 4.0
+        moved = rb.mesh.copy()
+        moved.update(points=np.asarray(rb.mesh.points) * s_)
+        rs = rb.copy(mesh=moved)
+        scaled = (np.allclose(rs.dA, dA * s_ ** (dim - 1), rtol=0, atol=1e-12 * s_ ** (dim - 1) * float(np.abs(dA).max()))
+                  and np.allclose(rs.dV, rb.dV * s_ ** (dim - 1), rtol=0, atol=1e-12 * s_ ** (dim - 1) * float(np.abs(rb.dV).max()))
+                  and np.allclose(rs.normals, nrm, rtol=0, atol=1e-11))
+        rec.require("copy-on-scaled-points-scales-the-area", scaled, {"s": s_, "dV-sum": [float(np.sum(rs.dV)), float(np.sum(rb.dV))]})
     rec.require("dV-positive", bool((np.asarray(rb.dV) > 0).all()))
     if d3 != dim:
         rec.close("ensure_3d-zero-padding", float(np.abs(dA[2]).max() + np.abs(nrm[2]).max()), 0.0)
